@@ -101,3 +101,48 @@ package json
 //@ loop 1 invariant ordered: forall k int :: 0 <= k && k < len(tokens)-1 ==> tokens[k].Range.End.Byte <= tokens[k+1].Range.Start.Byte
 //@ loop 1 invariant inbounds: forall k int :: 0 <= k && k < len(tokens) ==> old(start).Pos.Byte <= tokens[k].Range.Start.Byte && tokens[k].Range.End.Byte <= p.Pos.Byte
 //@ loop 1 decreases len(buf)
+
+// ---- JSON parser leaves (unit U4) ----
+// verif:unit U4 props=C13,C15
+
+// The token stream handed to the peeker is what scan() guarantees: non-empty and EOF-terminated.
+// verif:pred peekerOK(p *peeker) = p != nil && 0 <= p.pos && p.pos < len(p.tokens) && p.tokens[len(p.tokens)-1].Type == tokenEOF
+
+// verif:func newPeeker
+//@ requires len(tokens) >= 1 && tokens[len(tokens)-1].Type == tokenEOF
+//@ assigns nothing
+//@ ensures fresh(ret) && ret != nil && peekerOK(ret) && ret.tokens == tokens
+
+// verif:func (*peeker).Peek
+//@ requires peekerOK(p)
+//@ pure
+//@ ensures ret == p.tokens[p.pos]
+
+// verif:func (*peeker).Read
+//@ requires peekerOK(p)
+//@ assigns p
+//@ ensures ret == old(p.tokens[p.pos]) && p.tokens == old(p.tokens) && peekerOK(p)
+//@ ensures advance: (ret.Type != tokenEOF ==> p.pos == old(p.pos) + 1) && (ret.Type == tokenEOF ==> p.pos == old(p.pos))
+
+// A number token is accepted only if encoding/json accepts exactly its bytes.
+// verif:func parseNumber
+//@ requires peekerOK(p)
+//@ ensures keep: peekerOK(p)
+//@ ensures accepted: len(ret1) == 0 ==> jsonValid(org(old(p.tokens[p.pos]).Bytes), len(old(p.tokens[p.pos]).Bytes))
+//@ ensures rejected: !jsonValid(org(old(p.tokens[p.pos]).Bytes), len(old(p.tokens[p.pos]).Bytes)) ==> len(ret1) >= 1 && ret0 == nil
+
+// A string token is accepted only if encoding/json accepts exactly its bytes; every
+// diagnostic points inside the token.
+// verif:func parseString
+//@ requires peekerOK(p) && old(p.tokens[p.pos]).Range.Start.Byte <= old(p.tokens[p.pos]).Range.End.Byte && old(p.tokens[p.pos]).Range.End.Byte - old(p.tokens[p.pos]).Range.Start.Byte == len(old(p.tokens[p.pos]).Bytes)
+//@ ensures keep: peekerOK(p)
+//@ ensures accepted: len(ret1) == 0 ==> jsonValid(org(old(p.tokens[p.pos]).Bytes), len(old(p.tokens[p.pos]).Bytes))
+//@ ensures subject: forall k int :: 0 <= k && k < len(ret1) ==> ret1[k] != nil && ret1[k].Subject != nil && old(p.tokens[p.pos]).Range.Start.Byte <= ret1[k].Subject.Start.Byte && ret1[k].Subject.Start.Byte <= ret1[k].Subject.End.Byte && ret1[k].Subject.End.Byte <= old(p.tokens[p.pos]).Range.End.Byte
+
+// Keywords are exactly true, false and null.
+// verif:pred bytesAre(b []byte, s string) = len(b) == len(s) && (forall i int :: 0 <= i && i < len(b) ==> b[i] == strat(s, i))
+// verif:func parseKeyword
+//@ requires peekerOK(p)
+//@ ensures keep: peekerOK(p)
+//@ ensures exact: len(ret1) == 0 ==> bytesAre(old(p.tokens[p.pos]).Bytes, "true") || bytesAre(old(p.tokens[p.pos]).Bytes, "false") || bytesAre(old(p.tokens[p.pos]).Bytes, "null")
+//@ ensures wellformed: forall k int :: 0 <= k && k < len(ret1) ==> ret1[k] != nil && ret1[k].Severity == hcl.DiagError && ret1[k].Summary != ""
